@@ -65,9 +65,14 @@ type Token struct {
 type SafeAead struct {
 	*aead.Wrapper
 	Name string
+	// OnDecrypt, when set, is called at the start of every Decrypt (a KMS round trip that a scheduler may hold up)
+	OnDecrypt func()
 }
 
 func (s *SafeAead) Decrypt(ctx context.Context, in *wrapping.BlobInfo, opt ...wrapping.Option) ([]byte, error) {
+	if s.OnDecrypt != nil {
+		s.OnDecrypt()
+	}
 	if in == nil || len(in.Ciphertext) < 12 {
 		return nil, fmt.Errorf("safeaead: ciphertext too short")
 	}
